@@ -75,7 +75,8 @@ def run_case(rng, res, idx, tier):
     from kverif import kharness as kh, refmodel as rm, scenario, simdist
 
     W = rng.choice([2, 3, 4] if tier == 'quick' else [2, 3, 4, 4, 6, 8])
-    cfg = kh.make_config(rng, callables=False, dtypes=('float64', 'float64', 'float32'), inv_dtypes=('float32', 'float64'), kl=('const', 'big'), max_acc=2)
+    cfg = kh.make_config(rng, callables=False, dtypes=('float64', 'float64', 'float32'), factor_dtypes=(None, None, None, 'float32', 'bfloat16'), inv_dtypes=('float32', 'float64'),
+                         kl=('const', 'big'), max_acc=2)
     cfg['F'] = ('const', rng.choice([1, 2]))
     cfg['I'] = ('const', rng.choice([1, 2, 3]))
     cfg['loss'] = rng.choice(['mse', 'lse', 'sum'])
@@ -135,7 +136,8 @@ def run_case(rng, res, idx, tier):
             for n, (A, G) in base_fac[st].items():
                 lam = cfg['damping'][1]
                 kap = max(kap, rm.kappa_inverse(A.double(), G.double(), lam) if cfg['method'] == 'inverse' else rm.kappa_eigen(A.double(), G.double(), lam))
-            tol = 2 * kh.tol_for(cfg, kap, 8)
+            # both placements compute the factors in the same precision and reduction order: the factor dtype adds no slack here
+            tol = 2 * kh.tol_for(cfg, kap, 8, with_factor=False)
             err = kh.rel_err(g[0][st], base[st])
             res.maxi('max_placement_err_over_tol', err / tol)
             if not err <= tol:
